@@ -3,25 +3,62 @@
 Proof obligations: Props/C17.v (theorems over all histories, documents, split points).
 Tie to the code: differential correspondence of the model's convert_dict (Ser/Versioned.v,
 evaluated inside Coq by vm_compute) against typedpy's convert_dict on generated histories.
-Violation search: the statement's clauses evaluated on the implementation's observed behaviour."""
+Violation search: the statement's clauses evaluated on the implementation's observed behaviour.
+
+Streams: convert_dict (corpus + lattice + random histories; clauses of the first sentence, incl. "the user
+functions of exactly the pending mappings run, once each, in order" through tracer FunctionCalls);
+versioned-class (every latest key an Anything field, default options); versioned-deser / -lattice
+(harness/c17deser.py: subset-of-keys classes x 9 entry points x keep_undefined x direct_trusted_mapping x
+camel_case_convert, old document vs its conversion, 8 ways of building a new instance); deser-state
+(model of deserialize_structure_internal, Ser/VersionedDeser.v at the tables generated from the source this run,
+against the observed public state of the instance, inside Coq).
+
+False alarms met while strengthening (model/harness repaired, check not loosened):
+  * a mapping that moves a float under "version" (outside the theorems' hypotheses, but inside the correspondence
+    domain): Python computes 0.5 + 1, the model raised TypeError -> bump_version now adds exactly on floats;
+  * a document whose "version" is 2**40: `skipn (Z.to_nat ...)` ran coqc out of memory (shard "failed to evaluate")
+    -> py_slice_from returns [] when the index is beyond the list; the generator no longer invents a "version"."""
 import copy
 import random
 
 from harness import core
 from harness import coqemit as E
+from harness import c17deser as D
 
 KEYS = ["a", "b", "c", "name", "old", "sub", "items", "k", "n", "x", "y"]
 PATHS = ["a", "b", "old.name", "sub.x", "items.x", "missing", "a.b.c", "sub", "items", "old", "name", "x.y"]
 
 
+TRACE_KEY = "tr"          # not in KEYS / PATHS: no other entry of a generated mapping touches it
+
+
+class _Funcs(dict):
+    """The fixed family of FunctionCall functions.  Ids >= 100 are tracers: identity on the value, and
+    they log (id - 100) in `self.log` -- the order in which the mappings of a history were applied."""
+
+    def __init__(self):
+        super().__init__({
+            0: lambda *a: a[0],
+            1: lambda *a: list(a),
+            2: lambda *a: (a[0] + 1) if type(a[0]) is int else None,
+            3: lambda *a: len(a),
+            4: _raiser,
+        })
+        self.log = []
+
+    def __missing__(self, fid):
+        if fid < 100:
+            raise KeyError(fid)
+
+        def tracer(*a, _i=fid - 100):
+            self.log.append(_i)
+            return a[0]
+        self[fid] = tracer
+        return tracer
+
+
 def FUNCS():
-    return {
-        0: lambda *a: a[0],
-        1: lambda *a: list(a),
-        2: lambda *a: (a[0] + 1) if type(a[0]) is int else None,
-        3: lambda *a: len(a),
-        4: _raiser,
-    }
+    return _Funcs()
 
 
 def _raiser(*a):
@@ -51,7 +88,9 @@ def gen_doc(rnd, nmaps):
     d = {}
     r = rnd.random()
     latest = nmaps + 1
-    if r < 0.80:
+    if r < 0.30:
+        d["version"] = 1                                  # the oldest: every mapping applies
+    elif r < 0.80:
         d["version"] = rnd.randint(1, latest)
     elif r < 0.88:
         d["version"] = latest + rnd.randint(1, 2)       # beyond the latest
@@ -105,7 +144,12 @@ def gen_case(rnd):
     touch = rnd.random() < 0.06
     maps = [gen_mapping(rnd, 0, touch and rnd.random() < 0.5) for _ in range(n)]
     doc = gen_doc(rnd, n)
-    # make nested-mapper targets well formed: dict / list of dicts / None / absent
+    if n and rnd.random() < 0.3:
+        # traced history: every top-level mapping carries a tracer FunctionCall (identity on its own key)
+        for i, m in enumerate(maps):
+            m.insert(rnd.randint(0, len(m)), [TRACE_KEY, ["func", 100 + i, []]])
+    fit_doc(rnd, doc, maps)
+    # nested-mapper targets are well formed: dict / list of dicts / None / absent
     for m in maps:
         for k, v in m:
             if k.endswith("._mapper"):
@@ -113,6 +157,73 @@ def gen_case(rnd):
                 if f in doc and not _wf_nested(doc[f]):
                     doc[f] = gen_flat(rnd, 1) if rnd.random() < 0.5 else [gen_flat(rnd, 1) for _ in range(2)]
     return doc, maps
+
+
+def _put_path(rnd, doc, path):
+    """Make deep_get(doc, path) find something: nested dicts along the dotted path (a list of sub-documents
+    at the first level now and then)."""
+    parts = path.split(".")
+    if len(parts) == 1:
+        doc.setdefault(parts[0], gen_scalar(rnd))
+        return
+    cur = doc.get(parts[0])
+    if isinstance(cur, list) and cur and all(isinstance(x, dict) for x in cur):
+        targets = cur
+    elif isinstance(cur, dict):
+        targets = [cur]
+    else:
+        if rnd.random() < 0.2:
+            targets = [{}, {}]
+            doc[parts[0]] = targets
+        else:
+            targets = [{}]
+            doc[parts[0]] = targets[0]
+    for t in targets:
+        for q in parts[1:-1]:
+            nxt = t.get(q)
+            if not isinstance(nxt, dict):
+                nxt = {}
+                t[q] = nxt
+            t = nxt
+        t.setdefault(parts[-1], gen_scalar(rnd))
+
+
+def fit_doc(rnd, doc, maps):
+    """Make the document plausible AT ITS START VERSION: what the mappings that will be applied read, move,
+    delete or restructure is (mostly) there.  Keys that an earlier pending mapping creates are left alone."""
+    v = doc.get("version")
+    start = v - 1 if type(v) is int and v >= 1 else 0
+    created = set()
+    for m in maps[start:]:
+        for k, val in m:
+            t = val[0]
+            if k.endswith("._mapper"):
+                f = k[: -len("._mapper")]
+                if f in created:
+                    continue
+                if f in doc and not _wf_nested(doc[f]):
+                    doc[f] = gen_flat(rnd, 1) if rnd.random() < 0.5 else [gen_flat(rnd, 1) for _ in range(2)]
+                elif f not in doc and rnd.random() < 0.7:
+                    doc[f] = gen_flat(rnd, 1) if rnd.random() < 0.6 else [gen_flat(rnd, 1) for _ in range(2)]
+                # what the nested mapping reads is there as well
+                subs = doc.get(f)
+                for sub in (subs if isinstance(subs, list) else [subs]):
+                    if isinstance(sub, dict) and t == "sub":
+                        fit_doc(rnd, sub, [val[1]])
+                continue
+            if k == "version":
+                continue
+            if t == "deleted" and k not in created and rnd.random() < 0.75:
+                doc.setdefault(k, gen_scalar(rnd))
+            elif t == "key" and val[1].split(".")[0] not in created and rnd.random() < 0.75:
+                _put_path(rnd, doc, val[1])
+            elif t == "func" and rnd.random() < 0.6:
+                for a in (val[2] or [k]):
+                    if a not in created and a != TRACE_KEY:
+                        doc.setdefault(a, gen_scalar(rnd))
+        for k, val in m:
+            if not k.endswith("._mapper") and val[0] in ("const", "key", "func"):
+                created.add(k)
 
 
 def _wf_nested(v):
@@ -232,10 +343,22 @@ def spec_check(doc, maps_ast, rep, where):
         fails.append(("input-doc-modified", f"convert_dict modified its input document: {doc!r} -> {d!r}"))
     if [describe_mapping(m) for m in maps] != snap_maps:
         fails.append(("mapping-modified", "convert_dict modified a mapping object"))
-    if isinstance(once, Exception):
-        return fails
     v = doc.get("version")
     in_range = type(v) is int and 1 <= v <= n + 1
+    traced = [i for i, m in enumerate(maps_ast) if any(k == TRACE_KEY and val[0] == "func" and val[1] == 100 + i
+                                                       for k, val in m)]
+    if traced and type(v) is int and v >= 1 and keeps_version(maps_ast):
+        # "applies exactly the mappings from d's version onward, in order": the user functions of the
+        # mappings run once each, those of mapping v-1, v, ... in this order, none of an earlier mapping
+        want = [i for i in traced if i >= v - 1]
+        got = list(funcs.log)
+        if isinstance(once, Exception):
+            want = want[:len(got)] if got == want[:len(got)] else want      # a later step raised: a prefix
+        if got != want:
+            fails.append(("applied-mappings", f"a version-{v} document under {n} mappings: the functions of mappings "
+                                              f"{got} ran (0-based, in this order); exactly {want} must"))
+    if isinstance(once, Exception):
+        return fails
     if not (keeps_version(maps_ast) and type(v) is int and v >= 1):
         return fails
     # result must not alias the input
@@ -320,46 +443,228 @@ def versioned_class_check(doc, maps_ast):
     return fails, True
 
 
-def python_src(doc, maps_ast):
-    return ("from typedpy import Constant, Deleted, FunctionCall\n"
-            "from typedpy.serialization.versioned_mapping import convert_dict\n"
-            f"# mappings (model AST): {maps_ast!r}\n# document: {doc!r}\n")
+def python_src(doc, maps_ast, spec=None):
+    out = ("from typedpy import Constant, Deleted, FunctionCall\n"
+           "from typedpy.serialization.versioned_mapping import convert_dict\n"
+           f"# mappings (model AST): {maps_ast!r}\n# document: {doc!r}\n")
+    if spec is not None:
+        out += f"# Versioned class (see harness/c17deser.py build_classes): {spec!r}\n"
+    return out
 
 
 def replay(obj):
     doc, maps = obj["doc"], obj["maps"]
     fails = spec_check(doc, maps, None, "replay")
     f2, _ = versioned_class_check(doc, maps)
+    f3 = []
+    if obj.get("spec") is not None:
+        combos = [tuple(obj["combo"])] if obj.get("combo") else None
+        f3, _ = D.check(doc, maps, obj["spec"], combos=combos)
+        f3 = [(k, w) for k, w, _ in f3]
+        try:
+            print("class    :\n" + D.build_classes(obj["spec"], [])["src"])
+        except Exception:  # noqa
+            pass
     out, _, _ = run_impl(doc, maps)
     print("document :", doc)
     print("mappings :", maps)
     print("observed :", out)
-    for k, w in fails + f2:
+    for k, w in fails + f2 + f3:
         print("FAILS    :", k, "-", w)
-    if not fails + f2:
+    if not fails + f2 + f3:
         print("no clause of C17 fails on this input now")
-    return 1 if fails + f2 else 0
+    return 1 if fails + f2 + f3 else 0
+
+
+# ------------------------------------------------------------------ deterministic lattice
+
+LATTICE_DOC = {"a": 1, "old": {"name": "joe"}, "sub": {"x": 1}, "items": [{"x": 1}, {"x": 2}], "k": "s"}
+LATTICE_STEPS = [
+    ("const", [["c", ["const", 7]]]),
+    ("const-over", [["sub", ["const", {"z": 1}]]]),
+    ("move-deep+deleted", [["name", ["key", "old.name"]], ["old", ["deleted"]]]),
+    ("rename", [["b", ["key", "a"]], ["a", ["deleted"]]]),
+    ("deleted", [["k", ["deleted"]]]),
+    ("func", [["a", ["func", 2, []]]]),
+    ("func-args", [["n", ["func", 3, ["a", "k"]]]]),
+    ("nested", [["sub._mapper", ["sub", [["y", ["key", "x"]], ["x", ["deleted"]]]]]]),
+    ("nested-list", [["items._mapper", ["sub", [["x", ["func", 2, []]]]]]]),
+    ("empty", []),
+]
+
+
+def lattice_cases(tier):
+    """Every single step kind and every ORDERED PAIR of step kinds (triples in the thorough tier) over one
+    fixed document, at every start version (quick: pairs only from version 1); the document of start
+    version j is the version-1 document taken through the first j-1 mappings."""
+    from typedpy.serialization.versioned_mapping import convert_dict
+    hist = [[x] for x in LATTICE_STEPS] + [[x, y] for x in LATTICE_STEPS for y in LATTICE_STEPS]
+    if tier != "quick":
+        hist += [[x, y, z] for x in LATTICE_STEPS[2:5] for y in LATTICE_STEPS for z in LATTICE_STEPS[:6]]
+    out = []
+    for h in hist:
+        maps = [copy.deepcopy(m) for _, m in h]
+        n = len(maps)
+        versions = range(1, n + 2) if (tier != "quick" or n == 1) else [1]
+        for v in versions:
+            doc = dict({"version": 1}, **copy.deepcopy(LATTICE_DOC))
+            if v > 1:
+                try:
+                    doc = convert_dict(doc, [realize_mapping(m, FUNCS()) for m in maps[:v - 1]])
+                except Exception:  # noqa
+                    doc = dict(doc, version=v)
+                if doc.get("version") != v:
+                    doc = dict(doc, version=v)
+            out.append((doc, maps, "+".join(k for k, _ in h)))
+    return out
+
+
+# ------------------------------------------------------------------ emission of the deser-state stream
+
+
+
+SCALAR_KINDS = ("Integer", "String", "Float", "Boolean")
+
+
+def trusted_eligible(spec):
+    """Every declared field is a scalar typedpy field (the class's own `version` is a PositiveInt): the class is
+    one that _structure_simplicity_level accepts for direct_trusted_mapping."""
+    return all(kind in SCALAR_KINDS for _, kind in spec["fields"])
+
+
+def emit_dcase(ep, spec, ku, trusted, ignore_invalid, dname, mname, oname):
+    cls = "{| vc_fields := %s; vc_required := %s; vc_additional := %s; vc_trusted_eligible := %s |}" % (
+        E.lst([E.pstr(k) for k, _ in spec["fields"]]), E.lst([E.pstr(k) for k in spec["required"]]),
+        E.opt(spec["additional"], E.blit), E.blit(trusted_eligible(spec)))
+    opts = ("{| o_keep_undefined := %s; o_trusted := %s; o_additional_default := true; "
+            "o_ignore_invalid_additional := %s |}" % (E.opt(ku, E.blit), E.blit(trusted), E.blit(ignore_invalid)))
+    return "(%s, %s, %s, %s, %s, %s)" % (
+        "EDeserializer" if ep == "Deserializer" else "EDeserializeStructure", cls, opts, dname, mname, oname)
+
+
+def observe_state(classes, ep, ku, trusted, ignore_invalid, doc):
+    """Public state of the instance built from `doc` (declared fields and extra attributes)."""
+    from typedpy.structures import TypedPyDefaults
+    saved = TypedPyDefaults.ignore_invalid_additional_properties_in_deserialization
+    TypedPyDefaults.ignore_invalid_additional_properties_in_deserialization = ignore_invalid
+    try:
+        r, _ = D.run_one(classes, (ep, ku, trusted, False), copy.deepcopy(doc))
+    finally:
+        TypedPyDefaults.ignore_invalid_additional_properties_in_deserialization = saved
+    if r[0] == "raise":
+        return r
+    x = r[1]
+    return ("ok", ("struct", "V", [(k, E.reify(v)) for k, v in x.__dict__.items() if not k.startswith("_")]))
+
+
+def coq_shards(cases, observed, dcases, per=220):
+    """One Coq file per `per` cases: the document and history of a case are defined once and shared by its
+    convert_dict case and its deser-state cases; identical observed states are defined once.
+    -> (shard texts, [per-shard list of dcase meta indices])"""
+    shards, dindex = [], []
+    for s0 in range(0, len(cases), per):
+        defs, citems, ditems, didx = [], [], [], []
+        for ci in range(s0, min(s0 + per, len(cases))):
+            doc, maps, _ = cases[ci]
+            out = observed[ci]
+            defs.append("Definition d%d : dict := %s." % (ci, E.dictlit(E.reify(doc))))
+            defs.append("Definition m%d : list mapping := %s." % (ci, E.lst([emit_mapping(m) for m in maps])))
+            o = ("ok", E.reify(out[1])) if out[0] == "ok" else out
+            citems.append("(d%d, m%d, %s)" % (ci, ci, E.outcome(o)))
+            seen = {}
+            for di in dcases.get(ci, []):
+                _, spec_any, ep, ku, tr, ign, ob = DMETA[di]
+                txt = E.outcome(ob)
+                if txt not in seen:
+                    seen[txt] = "o%d_%d" % (ci, len(seen))
+                    defs.append("Definition %s : res pyval := %s." % (seen[txt], txt))
+                ditems.append(emit_dcase(ep, spec_any, ku, tr, ign, "d%d" % ci, "m%d" % ci, seen[txt]))
+                didx.append(di)
+        body = "\n".join(defs) + "\n"
+        body += "Definition cases : list case := %s.\n" % E.lst(["\n " + i for i in citems])
+        body += "Definition dcases : list dcase := %s.\n" % E.lst(["\n " + i for i in ditems])
+        body += "Eval vm_compute in (indices_where mismatch cases 0).\n"
+        body += "Eval vm_compute in (length (filter hyps cases)).\n"
+        body += "Eval vm_compute in (length (filter unmodelled cases)).\n"
+        body += "Eval vm_compute in (indices_where dmismatch dcases 0).\n"
+        body += "Eval vm_compute in (length (filter dunmodelled dcases)).\n"
+        shards.append(body)
+        dindex.append(didx)
+    return shards, dindex
+
+
+DMETA = []
+
+
+_JOB_CASES = None
+
+
+def _deser_job(job):
+    import collections
+    ci, stream, spec, is_lat = job
+    doc, maps, _ = _JOB_CASES[ci]
+    st = collections.Counter()
+    fails, ran = D.check(doc, maps, spec, combos=D.LATTICE_COMBOS if is_lat else D.ALL_COMBOS,
+                         stats=lambda k: st.update([k]))
+    return fails, ran, dict(st)
+
+
+def run_deser_jobs(cases, jobs):
+    global _JOB_CASES
+    _JOB_CASES = cases
+    nproc = max(1, min(8, core.NPROC // 2))
+    if nproc == 1 or len(jobs) < 16:
+        return [_deser_job(j) for j in jobs]
+    import multiprocessing
+    try:
+        with multiprocessing.get_context("fork").Pool(nproc) as pool:
+            return pool.map(_deser_job, jobs, chunksize=8)
+    except Exception:  # noqa  -- no worker processes available: same jobs, in this process
+        return [_deser_job(j) for j in jobs]
 
 
 def run(rep, tier):
     rnd = random.Random(core.seed() * 1000003 + 17)
-    ncases = 600 if tier == "quick" else 8000
-    proofs_ok, model_ok = core.standard_proof_obligations(rep, "C17", ["theories/Check/C17chk.vo", "theories/Ser/VersionedProofs.vo"])
+    ncases = 500 if tier == "quick" else 4000
+    proofs_ok, model_ok = core.standard_proof_obligations(
+        rep, "C17", ["theories/Check/C17chk.vo", "theories/Ser/VersionedProofs.vo"])
     rep.assumptions += [
-        "FunctionCall functions are pure (Section variable fn in the theorems; the harness uses a fixed family of 5)",
+        "FunctionCall functions are pure (Section variable fn in the theorems; the harness uses a fixed family of 5 "
+        "plus identity tracers that log on the side)",
         "theorems assume no top-level mapping entry names the key 'version' (keeps_version) and 1 <= version",
         "correspondence domain: values reached by nested '._mapper' entries are dicts, lists of dicts or None",
+        "deserialize_structure_internal is modelled for classes whose declared fields are all Anything, without "
+        "mappers/constants, through Deserializer.deserialize and deserialize_structure; typed fields, nested/Array/Map "
+        "entry points, direct_trusted_mapping and camel_case_convert are decided on the implementation only",
     ]
+    # generated facts of this run (also compiled into Gen/VersionedShape.v and checked by gen_*_ok lemmas)
+    try:
+        from harness.genmods import versioned_shape
+        facts = versioned_shape.facts()
+        for k in ("cd_note", "init_note", "pre_note"):
+            if facts[k]:
+                rep.stat("generated-shape", facts[k][:120])
+        for r, sr, _ in facts["sites"]:
+            rep.stat("generated-shape", f"site:{r}:{sr}")
+    except Exception as e:  # noqa
+        rep.stat("generated-shape", "plug-in failed: %r" % (e,))
     cases = []
     corpus = core_corpus("C17")
     for c in corpus:
-        cases.append((c["doc"], c["maps"]))
-    while len(cases) < ncases:
-        cases.append(gen_case(rnd))
-    # run the implementation, evaluate the spec on it
+        cases.append((c["doc"], c["maps"], c.get("spec")))
+    lat = lattice_cases(tier)
+    for doc, maps, _ in lat:
+        cases.append((doc, maps, "lattice"))
+    nfixed = len(cases)
+    while len(cases) < nfixed + ncases:
+        doc, maps = gen_case(rnd)
+        cases.append((doc, maps, None))
+    # ---- run the implementation, evaluate the spec on it
     observed = []
-    nvers = 0
-    for doc, maps in cases:
+    del DMETA[:]
+    dcases = {}
+    jobs = []
+    for ci, (doc, maps, tagspec) in enumerate(cases):
         out, _, _ = run_impl(doc, maps)
         observed.append(out)
         kind = "raise" if out[0] == "raise" else "ok"
@@ -368,69 +673,146 @@ def run(rep, tier):
         shape = (len(maps), doc.get("version") if isinstance(doc.get("version"), int) else "x",
                  tuple(sorted({v[0] for m in maps for _, v in m})), kind)
         rep.count("convert_dict", 1, shape if maps else None)
+        if any(k == TRACE_KEY for m in maps for k, _ in m):
+            rep.stat("convert_dict", "traced-history")
         for key, what in spec_check(doc, maps, rep, "gen"):
             rep.finding("C17/" + key, what, {"doc": doc, "maps": maps, "python": python_src(doc, maps)})
         f2, ran = versioned_class_check(doc, maps)
         if ran:
-            nvers += 1
             rep.count("versioned-class", 1)
         for key, what in f2:
             rep.finding("C17/" + key, what, {"doc": doc, "maps": maps, "python": python_src(doc, maps)})
-    rep.sample({"document": cases[len(corpus)][0], "mappings": cases[len(corpus)][1],
-                "observed": repr(observed[len(corpus)])})
+        # ---- deserialization of a Versioned class: subset-of-keys classes x entry points x options
+        if out[0] != "ok" or not ran:
+            continue
+        latest = out[1]
+        if tagspec == "lattice":
+            specs = D.lattice_specs(doc, latest)
+            stream = "versioned-deser-lattice"
+        elif isinstance(tagspec, dict):
+            specs, stream = [tagspec], "versioned-deser"
+        else:
+            specs, stream = [D.gen_spec(rnd, doc, latest)], "versioned-deser"
+        for spec in specs:
+            jobs.append((ci, stream, spec, tagspec == "lattice"))
+        # ---- deser-state correspondence cases (model of deserialize_structure_internal: Anything fields, or
+        #      all-scalar typed fields = eligible for the trusted branch)
+        if stream == "versioned-deser" and model_ok:
+            sp = specs[0]
+            spec_any = sp if (sp["fields"] and trusted_eligible(sp)) else \
+                dict(sp, fields=[[k, "any"] for k, _ in sp["fields"]])
+            spec_any = {k: v for k, v in spec_any.items() if k != "defaults"}
+            try:
+                classes = D.build_classes(spec_any, [realize_mapping(m, FUNCS()) for m in maps])
+            except Exception:  # noqa
+                classes = None
+            if classes is not None:
+                ign = rnd.random() >= 0.2
+                elig = trusted_eligible(spec_any)
+                trs = (False, True) if (elig or rnd.random() < 0.25) else (False,)
+                for ep in ("Deserializer", "deserialize_structure"):
+                    for ku in D.KEEP:
+                        for tr in trs:
+                            o = observe_state(classes, ep, ku, tr, ign, doc)
+                            rep.stat("deser-state", "outcome:" + (o[0] if o[0] == "ok" else "raise:" + o[1]))
+                            if tr and elig:
+                                rep.stat("deser-state", "trusted-branch")
+                            dcases.setdefault(ci, []).append(len(DMETA))
+                            DMETA.append((ci, spec_any, ep, ku, tr, ign, o))
+                            rep.count("deser-state", 1, (ep, ku, tr and elig, ign, spec_any["additional"], o[0],
+                                                         len(spec_any["fields"]), len(maps)))
+    # ---- the deserialization clauses (independent per job: run in worker processes, reported in order)
+    for (ci, stream, spec, is_lat), (fails, ran3, stats) in zip(jobs, run_deser_jobs(cases, jobs)):
+        doc, maps, _ = cases[ci]
+        latest = observed[ci][1]
+        combos = D.LATTICE_COMBOS if is_lat else D.ALL_COMBOS
+        for k, nst in stats.items():
+            rep.stat(stream, k, nst)
+        if not ran3:
+            continue
+        fnames = {k for k, _ in spec["fields"]}
+        undefined_latest = [k for k in latest if k != "version" and k not in fnames]
+        removed = [k for k in doc if k != "version" and k not in latest]
+        older = doc.get("version", 0) <= len(maps)
+        rep.stat(stream, "doc:" + ("older-version" if older else "latest-version"))
+        if older and removed:
+            rep.stat(stream, "history-removes-keys")
+        if older and removed and any(k not in fnames for k in removed):
+            rep.stat(stream, "history-removes-non-field-keys")
+        if undefined_latest:
+            rep.stat(stream, "latest-has-non-field-keys")
+        rep.stat(stream, "additional:%r" % (spec["additional"],))
+        rep.count(stream, len(combos),
+                  (len(maps), doc.get("version"), len(spec["fields"]), bool(undefined_latest), bool(removed),
+                   spec["additional"]) if older else None)
+        for key, what, combo in fails:
+            rep.finding("C17/" + key, what, {"doc": doc, "maps": maps, "spec": spec,
+                                             "combo": list(combo) if combo else None,
+                                             "python": python_src(doc, maps, spec)})
+    first = nfixed if nfixed < len(cases) else 0
+    rep.sample({"document": cases[first][0], "mappings": cases[first][1], "observed": repr(observed[first])})
     rep.sample({"document": cases[-1][0], "mappings": cases[-1][1], "observed": repr(observed[-1])})
-    # correspondence in Coq
+    # ---- correspondence in Coq
     if model_ok:
-        shards = []
-        per = 400
-        for s in range(0, len(cases), per):
-            items = []
-            for (doc, maps), out in zip(cases[s:s + per], observed[s:s + per]):
-                o = ("ok", E.reify(out[1])) if out[0] == "ok" else out
-                items.append("(%s, %s, %s)" % (E.dictlit(E.reify(doc)), E.lst([emit_mapping(m) for m in maps]),
-                                               E.outcome(o)))
-            body = "Definition cases : list case := %s.\n" % E.lst(["\n " + i for i in items])
-            body += "Eval vm_compute in (indices_where mismatch cases 0).\n"
-            body += "Eval vm_compute in (length (filter hyps cases)).\n"
-            body += "Eval vm_compute in (length (filter unmodelled cases)).\n"
-            shards.append(body)
+        per = 220
+        shards, dindex = coq_shards(cases, observed, dcases, per)
         res = core.eval_cases(shards, "c17", HEADER)
-        mism = []
-        nhyp = 0
-        nunm = 0
-        bad_shard = None
+        mism, dm, nhyp, nunm, dun, bad = [], [], 0, 0, 0, None
         for si, (rc, out, err) in enumerate(res):
             vals = core.parse_eval(out)
-            if rc != 0 or len(vals) != 3:
-                bad_shard = (si, (out + err)[-1500:])
+            if rc != 0 or len(vals) != 5:
+                bad = (si, (out + err)[-1500:])
                 continue
             mism += [si * per + i for i in core.parse_nat_list(vals[0])]
             nhyp += core.parse_nat_list(vals[1])[0]
             nunm += core.parse_nat_list(vals[2])[0]
-        rep.obligation("correspondence:convert_dict", not mism and bad_shard is None,
+            dm += [dindex[si][i] for i in core.parse_nat_list(vals[3])]
+            dun += core.parse_nat_list(vals[4])[0]
+        rep.obligation("correspondence:convert_dict", not mism and bad is None,
                        f"{len(cases)} cases, {len(mism)} mismatches")
+        rep.obligation("correspondence:deser-state", not dm and bad is None,
+                       f"{len(DMETA)} cases, {len(dm)} mismatches")
         rep.cov["streams"]["convert_dict"]["theorem_hypotheses_hold"] = nhyp
         rep.cov["streams"]["convert_dict"]["outside_model_domain_skipped"] = nunm
+        if DMETA:
+            rep.cov["streams"]["deser-state"]["outside_model_domain_skipped"] = dun
+        if bad is not None:
+            rep.broken("correspondence/coq-eval", f"case shard {bad[0]} failed to evaluate: {bad[1]}")
         if nunm * 10 > len(cases):
-            rep.broken("correspondence:convert_dict/domain", f"{nunm} of {len(cases)} cases fall outside the model's domain: inconclusive")
-        if bad_shard is not None:
-            rep.broken("correspondence:convert_dict/coq-eval", f"case shard {bad_shard[0]} failed to evaluate: {bad_shard[1]}")
+            rep.broken("correspondence:convert_dict/domain",
+                       f"{nunm} of {len(cases)} cases fall outside the model's domain: inconclusive")
         if mism and not rep.violations:
             i = mism[0]
             rep.broken("correspondence:convert_dict",
                        f"model (Ser/Versioned.v) and typedpy.convert_dict differ on {len(mism)} generated cases; "
                        "no clause of C17 failed on any explored input",
                        {"doc": cases[i][0], "maps": cases[i][1], "observed": repr(observed[i]),
-                        "python": python_src(*cases[i])})
+                        "python": python_src(cases[i][0], cases[i][1])})
         elif mism:
             rep.obligation("correspondence:convert_dict:explained-by-violation", True,
+                           "mismatching cases accompany a concrete violation reported above")
+        if dm and not rep.violations:
+            ci, spec_any, ep, ku, tr, ign, o = DMETA[dm[0]]
+            rep.broken("correspondence:deser-state",
+                       f"model (Ser/VersionedDeser.v) and typedpy's deserialization of a Versioned class differ on "
+                       f"{len(dm)} generated cases; no clause of C17 failed on any explored input",
+                       {"doc": cases[ci][0], "maps": cases[ci][1], "spec": spec_any,
+                        "entry_point": ep, "keep_undefined": ku, "direct_trusted_mapping": tr,
+                        "ignore_invalid_additional": ign,
+                        "observed": repr(o), "python": python_src(cases[ci][0], cases[ci][1], spec_any)})
+        elif dm:
+            rep.obligation("correspondence:deser-state:explained-by-violation", True,
                            "mismatching cases accompany a concrete violation reported above")
     if not proofs_ok:
         broken_build(rep)
     return rep.finish(
-        rule="cases = (document, version history) drawn from a seeded grammar over Constant/Deleted/key moves/"
-             "nested ._mapper (incl. lists)/FunctionCall, all start versions; non-trivial = history non-empty; "
-             "distinct = distinct (history length, start version, mapping constructor set, outcome kind)")
+        rule="cases = corpus + deterministic lattice (every single / ordered pair of mapping-entry kinds over one "
+             "document, start versions) + (document, version history) drawn from a seeded grammar over Constant/"
+             "Deleted/key moves/nested ._mapper (incl. lists)/FunctionCall (30% with per-mapping tracers), all start "
+             "versions; for each, a Versioned class over a random subset of the latest keys (typed or Anything, "
+             "_additional_properties unset/True/False) deserialized through 5 entry points x keep_undefined x "
+             "direct_trusted_mapping x camel_case_convert; non-trivial = history non-empty (deser: older-version "
+             "document); distinct = distinct (history length, start version, constructor set / class shape, outcome)")
 
 
 def core_corpus(pid):
